@@ -440,14 +440,15 @@ def fsck (r : Resources) : Out Unit :=
 
 /-! ### the tree printer (art.rs), `TreeArt::Ascii` -/
 
--- src: error.rs:Error::to_str
+-- src: error.rs:Error::to_str — the wording of the messages is not modelled: the harness replaces each
+-- message by this canonical token before comparing (a reworded message is not a disagreement)
 def errText : Err → List Nat
-  | .null => asc "null address reference" | .bounds => asc "bounds check failed"
-  | .zeroFill => asc "zero filled data reference" | .unmapped => asc "overlay data reference"
-  | .misaligned => asc "address misaligned" | .badMagic => asc "unknown magic number"
-  | .peMagic => asc "try again with correct parser" | .insanity => asc "data insanity"
-  | .invalid => asc "invalid data" | .overflow => asc "overflow error"
-  | .encoding => asc "encoding error" | .aliasing => asc "aliasing error"
+  | .null => asc "<E:Null>" | .bounds => asc "<E:Bounds>"
+  | .zeroFill => asc "<E:ZeroFill>" | .unmapped => asc "<E:Unmapped>"
+  | .misaligned => asc "<E:Misaligned>" | .badMagic => asc "<E:BadMagic>"
+  | .peMagic => asc "<E:PeMagic>" | .insanity => asc "<E:Insanity>"
+  | .invalid => asc "<E:Invalid>" | .overflow => asc "<E:Overflow>"
+  | .encoding => asc "<E:Encoding>" | .aliasing => asc "<E:Aliasing>"
 
 /-- `for open in (0..depth).map(|i| margin & (1 << i) != 0)`: "    " when open, "|   " otherwise -/
 def marginText (depth margin : Nat) : List Nat :=
